@@ -106,12 +106,12 @@ Definition d_scale (num den : Z) (d : dim) : dim :=
   mkdim (Z.quot (d_stride d * num) den) (d_offset d) (Z.quot (d_nelems d * num) den).
 Definition l_scale (num den : Z) (l : layout) : layout := map (d_scale num den) l.
 
-(* Flat iteration (layout.hpp:775-784, 1070): the layout call operator accumulates
-   offset_ + idx*stride_ level by level and returns the total; NOTE it ADDS the offsets that
-   indexing (array_ref.hpp:1131, 2812) SUBTRACTS. *)
+(* Flat iteration (layout.hpp:775-784, 1070): the layout call operator accumulates, level by level,
+   what indexing adds to the base pointer (array_ref.hpp:1131, 2812): idx*stride_ - offset_.
+   (After fix 17 of DESIGN section 7; before it the offsets were added, wrong for re-based views.) *)
 Fixpoint l_call (l : layout) (idx : list Z) : Z :=
   match l, idx with
-  | d :: l', i :: idx' => d_offset d + i * d_stride d + l_call l' idx'
+  | d :: l', i :: idx' => i * d_stride d - d_offset d + l_call l' idx'
   | _, _ => 0
   end.
 (* what chained brackets add to the base pointer *)
@@ -121,19 +121,22 @@ Fixpoint l_addr (l : layout) (idx : list Z) : Z :=
   | _, _ => 0
   end.
 
-(* extensions_t: from_linear / to_linear / next_canonical / prev_canonical (layout.hpp:176-217, 373-411) *)
+(* extensions_t: from_linear / to_linear / next_canonical / prev_canonical (layout.hpp:176-217, 373-411).
+   All four work with indices OF THE EXTENSION (first <= i < last), i.e. from_linear adds and
+   to_linear subtracts the first index of each dimension (fix 17; before it from_linear/to_linear were
+   zero-based while next/prev_canonical were extension-based). *)
 Fixpoint x_from_linear (x : list range) (n : Z) : list Z :=
   match x with
   | [] => []
-  | [_] => [n]
-  | _ :: rest =>
+  | [r] => [n + fst r]
+  | r :: rest =>
       let sub := x_num_elements rest in
-      Z.quot n sub :: x_from_linear rest (Z.rem n sub)
+      (Z.quot n sub + fst r) :: x_from_linear rest (Z.rem n sub)
   end.
 Fixpoint x_to_linear (x : list range) (idx : list Z) : Z :=
   match x, idx with
-  | [_], [i] => i
-  | _ :: rest, i :: idx' => i * x_num_elements rest + x_to_linear rest idx'
+  | [r], [i] => i - fst r
+  | r :: rest, i :: idx' => (i - fst r) * x_num_elements rest + x_to_linear rest idx'
   | _, _ => 0
   end.
 (* returns (carry, new tuple) *)
